@@ -162,6 +162,16 @@ func sortedContent[K any](r *refMap[K], y *yielded[K], desc bool, in func(K) boo
 	return vpAnd(ok, n == uint64(len(y.ks)))
 }
 
+const specConcrete = 1 << 30
+
+// mkKey: a probe / bound key: symbolic of the given shape, or concrete when bit 30 of the spec is set.
+func mkKey[K any](h *hk[K], spec int) K {
+	if spec >= 0 && spec&specConcrete != 0 {
+		return h.concKey(spec &^ specConcrete)
+	}
+	return h.newKey(spec)
+}
+
 func runHist[K any](h *hk[K]) {
 	mask := vpParam(1)
 	kmode := vpParam(2)
@@ -217,11 +227,11 @@ func runHist[K any](h *hk[K]) {
 			vpAssert(uint64(st.size) == ref.count(), "C11 reachable keys equal the reference cardinality")
 		}
 	}
+	nProbe := vpParam(pi)
+	pi++
 	if mask&ckMap != 0 {
-		nProbe := vpParam(pi)
-		pi++
 		for j := 0; j < nProbe; j++ {
-			pk := h.newKey(vpParam(pi))
+			pk := mkKey(h, vpParam(pi))
 			pi++
 			vpApi()
 			got, ok := t.Search(h.clone(pk))
@@ -252,18 +262,18 @@ func runHist[K any](h *hk[K]) {
 	}
 	if mask&ckRange != 0 {
 		emptyEnd := vpParam(pi+1) == -1
-		a := h.newKey(vpParam(pi))
+		a := mkKey(h, vpParam(pi))
 		var b K
 		if emptyEnd {
 			b = h.concKey(0)
 		} else {
-			b = h.newKey(vpParam(pi + 1))
+			b = mkKey(h, vpParam(pi+1))
 		}
 		pi += 2
 		checkRange(h, t, ref, a, b, emptyEnd)
 	}
 	if mask&ckPrefix != 0 {
-		p := h.newKey(vpParam(pi))
+		p := mkKey(h, vpParam(pi))
 		pi++
 		vpApi()
 		y := collect(t.Prefix(h.clone(p)))
@@ -312,7 +322,7 @@ func checkPure[K any](h *hk[K], t Tree[K, uint64], ref *refMap[K], which, sa, sb
 	vpApi()
 	switch which {
 	case 0:
-		t.Search(h.clone(h.newKey(sa)))
+		t.Search(h.clone(mkKey(h, sa)))
 	case 1:
 		t.Minimum()
 		t.Maximum()
@@ -321,9 +331,9 @@ func checkPure[K any](h *hk[K], t Tree[K, uint64], ref *refMap[K], which, sa, sb
 		collect(t.All())
 		collect(t.Backward())
 	case 3:
-		collect(t.Prefix(h.clone(h.newKey(sa))))
+		collect(t.Prefix(h.clone(mkKey(h, sa))))
 	case 4:
-		a, b := h.newKey(sa), h.newKey(sb)
+		a, b := mkKey(h, sa), mkKey(h, sb)
 		if h.badBound != nil {
 			vpAssume(!h.badBound(a, b))
 		}
@@ -387,13 +397,17 @@ func checkExtremes[K any](h *hk[K], t Tree[K, uint64], ref *refMap[K]) {
 		}
 	}
 	vpAssert(okMax, "C05 Maximum() is the largest stored pair / reports none exactly when empty")
-	// BottomK / TopK with a fully symbolic n
+	// BottomK / TopK with a fully symbolic n (on large fan-out bases: n in {0,1,2} or n >= size, to bound the forks)
 	n := uint(vpU64())
+	m := uint(vpU64())
+	if len(ref.ents) > 20 {
+		vpAssume(vpOr(n <= 2, uint64(n) >= cnt))
+		vpAssume(vpOr(m <= 2, uint64(m) >= cnt))
+	}
 	vpApi()
 	bk := collect(t.BottomK(n))
 	vpTrace("bottomk.n", uint64(len(bk.ks)))
 	vpAssert(firstK(h, ref, bk, false, uint64(n)), "C05 BottomK(n) is the first min(n,size) pairs ascending")
-	m := uint(vpU64())
 	vpApi()
 	tk := collect(t.TopK(m))
 	vpTrace("topk.n", uint64(len(tk.ks)))
@@ -474,9 +488,9 @@ func seqOf[K any](h *hk[K], t Tree[K, uint64], method, sa, sb int) func(yield fu
 	case 1:
 		return t.Backward()
 	case 2:
-		return t.Prefix(h.clone(h.newKey(sa)))
+		return t.Prefix(h.clone(mkKey(h, sa)))
 	case 3:
-		a, b := h.newKey(sa), h.newKey(sb)
+		a, b := mkKey(h, sa), mkKey(h, sb)
 		if h.badBound != nil {
 			vpAssume(!h.badBound(a, b))
 		}
